@@ -1,19 +1,569 @@
 package main
 
-type emitter struct{ lines []string }
+// Emission of the trace-correspondence cases for coq/Run/RunC07.v.
 
-func (e *emitter) emit(sc scenario, ref *refRun) {}
-func (e *emitter) emitStartup(ev []event)          {}
+import (
+	"fmt"
+	"sort"
+	"strconv"
+	"strings"
+)
 
-func modelAppend(pfx string, ref *refRun) string      { return "" }
-func modelCopy(pfx string, ref *refRun) string        { return "" }
-func modelMove(pfx string, ref *refRun) string        { return "" }
-func modelExpunge(pfx string, ref *refRun) string     { return "" }
-func modelStore(pfx string, ref *refRun) string       { return "" }
-func modelCreate(pfx string, ref *refRun) string      { return "" }
-func modelDelete(pfx string, ref *refRun) string      { return "" }
-func modelRename(pfx string, ref *refRun) string      { return "" }
-func modelConnCreate(pfx string, ref *refRun) string  { return "" }
-func modelConnUpdate(pfx string, ref *refRun) string  { return "" }
-func modelConnDelete(pfx string, ref *refRun) string  { return "" }
-func modelSessionEnd(pfx string, ref *refRun) string  { return "" }
+type emitter struct {
+	lines []string
+	msg   map[string]int
+	meta  map[string]int
+	flag  map[string]int
+}
+
+func (e *emitter) init() {
+	if e.msg == nil {
+		e.msg = map[string]int{}
+		e.meta = map[string]int{}
+		e.flag = map[string]int{"": 0}
+	}
+}
+
+func (e *emitter) mid(iid string) int {
+	if v, ok := e.msg[iid]; ok {
+		return v
+	}
+	v := len(e.msg) + 1
+	e.msg[iid] = v
+	return v
+}
+
+func (e *emitter) metaTok(mb snapMb) int {
+	k := fmt.Sprintf("%s|%d|%v|%s", mb.Name, mb.UIDV, mb.Sub, mb.RID)
+	if v, ok := e.meta[k]; ok {
+		return v
+	}
+	v := len(e.meta) + 1
+	e.meta[k] = v
+	return v
+}
+
+func (e *emitter) flagTok(fs []string) int {
+	k := strings.Join(normFlags(fs), " ")
+	if v, ok := e.flag[k]; ok {
+		return v
+	}
+	v := len(e.flag)
+	e.flag[k] = v
+	return v
+}
+
+func jl(xs []string) string { return "[" + strings.Join(xs, "; ") + "]" }
+
+// canonical order of message tokens: by remote id (internal ids are random)
+func (e *emitter) assign(s *dbSnap) {
+	ms := append([]snapMsg{}, s.Ms...)
+	sort.Slice(ms, func(i, j int) bool { return ms[i].RID < ms[j].RID })
+	for _, m := range ms {
+		if !strings.HasPrefix(m.RID, "DELETED-") {
+			e.mid(m.IID)
+		}
+	}
+	for _, m := range ms {
+		e.mid(m.IID)
+	}
+}
+
+func (e *emitter) db(s *dbSnap) string {
+	var mbs, msgs, rows, flags []string
+	for _, mb := range s.Mb {
+		mbs = append(mbs, fmt.Sprintf("(%d, %d)", mb.IID, e.metaTok(mb)))
+	}
+	ms := append([]snapMsg{}, s.Ms...)
+	sort.Slice(ms, func(i, j int) bool { return e.mid(ms[i].IID) < e.mid(ms[j].IID) })
+	for _, m := range ms {
+		msgs = append(msgs, fmt.Sprintf("(%d, %v)", e.mid(m.IID), m.Deleted))
+		if t := e.flagTok(m.Flags); t != 0 {
+			flags = append(flags, fmt.Sprintf("(%d, %d)", e.mid(m.IID), t))
+		}
+	}
+	for _, r := range s.Rows {
+		rows = append(rows, fmt.Sprintf("(%d, %d, %d)", r.Mb, r.UID, e.mid(r.Msg)))
+	}
+	return fmt.Sprintf("(mkDb %s %s %s %s)", jl(mbs), jl(msgs), jl(rows), jl(flags))
+}
+
+func (e *emitter) files(fs []string) []string {
+	var out []string
+	for _, f := range fs {
+		out = append(out, fmt.Sprint(e.mid(f)))
+	}
+	return out
+}
+
+func (e *emitter) machine(s *dbSnap, files []string) string {
+	var st []string
+	for _, f := range files {
+		st = append(st, fmt.Sprintf("(%d, [0])", e.mid(f)))
+	}
+	return fmt.Sprintf("(mkM %s %s None)", jl(st), e.db(s))
+}
+
+func mbByName(s *dbSnap, name string) *snapMb {
+	for i := range s.Mb {
+		if s.Mb[i].Name == name {
+			return &s.Mb[i]
+		}
+	}
+	return nil
+}
+
+func mbByRID(s *dbSnap, rid string) *snapMb {
+	for i := range s.Mb {
+		if s.Mb[i].RID == rid {
+			return &s.Mb[i]
+		}
+	}
+	return nil
+}
+
+func msByRID(s *dbSnap, rid string) *snapMsg {
+	for i := range s.Ms {
+		if s.Ms[i].RID == rid {
+			return &s.Ms[i]
+		}
+	}
+	return nil
+}
+
+func rowsOf(s *dbSnap, mb uint64) []snapRow {
+	var out []snapRow
+	for _, r := range s.Rows {
+		if r.Mb == mb {
+			out = append(out, r)
+		}
+	}
+	sort.Slice(out, func(i, j int) bool { return out[i].UID < out[j].UID })
+	return out
+}
+
+func hasRow(s *dbSnap, mb uint64, msg string) bool {
+	for _, r := range s.Rows {
+		if r.Mb == mb && r.Msg == msg {
+			return true
+		}
+	}
+	return false
+}
+
+// newRows: rows of the mailbox that exist after but not before, by ascending uid
+func newRows(ref *refRun, mb uint64) []snapRow {
+	var out []snapRow
+	for _, r := range rowsOf(ref.snapAfter, mb) {
+		if !hasRow(ref.snapBefore, mb, r.Msg) {
+			out = append(out, r)
+		}
+	}
+	return out
+}
+
+// ---- events -> model steps ----
+func (e *emitter) steps(ev []event, ref *refRun) []string {
+	var out []string
+	u := func(s string) uint64 { v, _ := strconv.ParseUint(s, 10, 64); return v }
+	for _, x := range ev {
+		switch x.K {
+		case "begin-w":
+			out = append(out, "SBegin")
+		case "commit":
+			out = append(out, "SCommit")
+		case "rollback":
+			out = append(out, "SRead") // a rolled back transaction leaves no trace
+		case "begin-r", "end-r", "stmt-err", "list":
+			out = append(out, "SRead")
+		case "set":
+			out = append(out, fmt.Sprintf("SSet %d [0]", e.mid(x.Args[0])))
+		case "get":
+			out = append(out, fmt.Sprintf("SGet %d", e.mid(x.Args[0])))
+		case "del":
+			for _, a := range x.Args {
+				out = append(out, fmt.Sprintf("SDel %d", e.mid(a)))
+			}
+		case "stmt":
+			if !x.W {
+				out = append(out, "SRead")
+				continue
+			}
+			st := func(s string) { out = append(out, "SStmt ("+s+")") }
+			switch x.N {
+			case "CreateMessages":
+				for _, a := range x.Args {
+					st(fmt.Sprintf("StInsertMsg %d", e.mid(a)))
+				}
+			case "CreateMessageAndAddToMailbox":
+				st(fmt.Sprintf("StInsertMsg %d", e.mid(x.Args[2])))
+				st(fmt.Sprintf("StInsertRow %d %s %d", u(x.Args[0]), x.Args[1], e.mid(x.Args[2])))
+			case "AddMessagesToMailbox":
+				type pr struct {
+					uid int
+					id  string
+				}
+				var ps []pr
+				for i := 1; i+1 < len(x.Args); i += 2 {
+					uid, _ := strconv.Atoi(x.Args[i])
+					ps = append(ps, pr{uid, x.Args[i+1]})
+				}
+				sort.Slice(ps, func(i, j int) bool { return ps[i].uid < ps[j].uid })
+				for _, p := range ps {
+					st(fmt.Sprintf("StInsertRow %d %d %d", u(x.Args[0]), p.uid, e.mid(p.id)))
+				}
+			case "RemoveMessagesFromMailbox":
+				for _, a := range x.Args[1:] {
+					st(fmt.Sprintf("StDeleteRow %d %d", u(x.Args[0]), e.mid(a)))
+				}
+			case "MarkMessageAsDeleted", "MarkMessageAsDeletedAndAssignRandomRemoteID":
+				st(fmt.Sprintf("StMark %d", e.mid(x.Args[0])))
+			case "MarkMessageAsDeletedWithRemoteID":
+				if m := msByRID(ref.snapBefore, strings.TrimPrefix(x.Args[0], "rid:")); m != nil {
+					st(fmt.Sprintf("StMark %d", e.mid(m.IID)))
+				}
+			case "DeleteMessages":
+				for _, a := range x.Args {
+					st(fmt.Sprintf("StDeleteMsg %d", e.mid(a)))
+				}
+			case "CreateMailbox":
+				if len(x.Args) == 1 {
+					st(fmt.Sprintf("StCreateMb %d 0", u(x.Args[0])))
+				}
+			case "CreateMailboxIfNotExists", "GetOrCreateMailbox", "GetOrCreateMailboxAlt":
+				if len(x.Args) == 1 {
+					name := strings.TrimPrefix(x.Args[0], "name:")
+					if mbByName(ref.snapBefore, name) == nil {
+						if mb := mbByName(ref.snapAfter, name); mb != nil {
+							st(fmt.Sprintf("StCreateMb %d 0", mb.IID))
+							continue
+						}
+					}
+				}
+				st("StNeutral")
+			case "DeleteMailboxWithRemoteID":
+				if mb := mbByRID(ref.snapBefore, strings.TrimPrefix(x.Args[0], "rid:")); mb != nil {
+					st(fmt.Sprintf("StDeleteMb %d", mb.IID))
+				}
+			case "RenameMailboxWithRemoteID":
+				if mb := mbByRID(ref.snapBefore, strings.TrimPrefix(x.Args[0], "rid:")); mb != nil {
+					st(fmt.Sprintf("StSetMeta %d 0", mb.IID))
+				}
+			case "SetMailboxSubscribed", "UpdateRemoteMailboxID", "SetMailboxUIDValidity":
+				st(fmt.Sprintf("StSetMeta %d 0", u(x.Args[0])))
+			case "AddFlagToMessages", "RemoveFlagFromMessages", "SetFlagsOnMessages", "SetMailboxMessagesDeletedFlag":
+				for _, a := range x.Args {
+					st(fmt.Sprintf("StSetFlags %d 0", e.mid(a)))
+				}
+			default:
+				st("StNeutral")
+			}
+		}
+	}
+	return out
+}
+
+// restrict cuts the snapshots and file lists of a reference run down to the objects of its prefix plus everything the
+// recorded trace mentions (the directory accumulates the objects of all scenarios).
+func restrict(ref *refRun) *refRun {
+	inTrace := map[string]bool{}
+	mbTrace := map[uint64]bool{}
+	for _, x := range ref.events {
+		for _, a := range x.Args {
+			inTrace[a] = true
+			if v, err := strconv.ParseUint(a, 10, 64); err == nil && x.K == "stmt" {
+				mbTrace[v] = true
+			}
+		}
+	}
+	cut := func(s *dbSnap, other *dbSnap) *dbSnap {
+		out := &dbSnap{}
+		keepMb := map[uint64]bool{}
+		for _, mb := range s.Mb {
+			if strings.HasPrefix(mb.Name, ref.pfx) || strings.HasPrefix(mb.RID, ref.pfx) || (mbTrace[mb.IID] && false) {
+				keepMb[mb.IID] = true
+			}
+		}
+		for _, mb := range other.Mb {
+			if strings.HasPrefix(mb.Name, ref.pfx) || strings.HasPrefix(mb.RID, ref.pfx) {
+				keepMb[mb.IID] = true
+			}
+		}
+		keepMs := map[string]bool{}
+		for _, r := range s.Rows {
+			if keepMb[r.Mb] {
+				keepMs[r.Msg] = true
+			}
+		}
+		for _, r := range other.Rows {
+			if keepMb[r.Mb] {
+				keepMs[r.Msg] = true
+			}
+		}
+		for _, m := range append(append([]snapMsg{}, s.Ms...), other.Ms...) {
+			if strings.HasPrefix(m.RID, ref.pfx) || inTrace[m.IID] {
+				keepMs[m.IID] = true
+			}
+		}
+		for _, mb := range s.Mb {
+			if keepMb[mb.IID] {
+				out.Mb = append(out.Mb, mb)
+			}
+		}
+		for _, r := range s.Rows {
+			if keepMb[r.Mb] {
+				out.Rows = append(out.Rows, r)
+			}
+		}
+		for _, m := range s.Ms {
+			if keepMs[m.IID] {
+				out.Ms = append(out.Ms, m)
+			}
+		}
+		return out
+	}
+	r := *ref
+	r.snapBefore = cut(ref.snapBefore, ref.snapAfter)
+	r.snapAfter = cut(ref.snapAfter, ref.snapBefore)
+	keep := map[string]bool{}
+	for _, m := range append(append([]snapMsg{}, r.snapBefore.Ms...), r.snapAfter.Ms...) {
+		keep[m.IID] = true
+	}
+	for a := range inTrace {
+		keep[a] = true
+	}
+	ff := func(fs []string) []string {
+		var out []string
+		for _, f := range fs {
+			if keep[f] {
+				out = append(out, f)
+			}
+		}
+		return out
+	}
+	r.filesBefore, r.filesAfter = ff(ref.filesBefore), ff(ref.filesAfter)
+	return &r
+}
+
+func (e *emitter) emit(sc scenario, ref *refRun) {
+	e.init()
+	if sc.model == nil {
+		return
+	}
+	ref = restrict(ref)
+	e.assign(ref.snapBefore)
+	e.assign(ref.snapAfter)
+	op := sc.model(e, ref)
+	if op == "" {
+		return
+	}
+	id := len(e.lines) + 1
+	e.lines = append(e.lines, fmt.Sprintf("mkCase %d %s %s %s %s %s", id, op, e.machine(ref.snapBefore, ref.filesBefore),
+		jl(e.steps(ref.events, ref)), e.db(ref.snapAfter), jl(e.files(ref.filesAfter))))
+}
+
+func (e *emitter) emitStartup(ref *refRun) {
+	e.init()
+	e.assign(ref.snapBefore)
+	e.assign(ref.snapAfter)
+	for _, f := range ref.filesBefore {
+		e.mid(f)
+	}
+	id := len(e.lines) + 1
+	e.lines = append(e.lines, fmt.Sprintf("mkCase %d OpStartup %s %s %s %s", id, e.machine(ref.snapBefore, ref.filesBefore),
+		jl(e.steps(ref.events, ref)), e.db(ref.snapAfter), jl(e.files(ref.filesAfter))))
+}
+
+// ---- the model operation of each scenario, derived from the request and the states before / after ----
+func itemsOf(e *emitter, rows []snapRow) string {
+	var xs []string
+	for _, r := range rows {
+		xs = append(xs, fmt.Sprintf("(%d, %d)", r.UID, e.mid(r.Msg)))
+	}
+	return jl(xs)
+}
+
+func modelAppend(e *emitter, ref *refRun) string {
+	mb := mbByName(ref.snapBefore, ref.pfx+"A")
+	nr := newRows(ref, mb.IID)
+	if len(nr) != 1 {
+		return ""
+	}
+	return fmt.Sprintf("(OpAppend %d %d %d [0])", mb.IID, nr[0].UID, e.mid(nr[0].Msg))
+}
+
+func modelCopy(e *emitter, ref *refRun) string {
+	dst := mbByName(ref.snapBefore, ref.pfx+"B")
+	return fmt.Sprintf("(OpCopy %d %s)", dst.IID, itemsOf(e, newRows(ref, dst.IID)))
+}
+
+func modelMove(e *emitter, ref *refRun) string {
+	src, dst := mbByName(ref.snapBefore, ref.pfx+"A"), mbByName(ref.snapBefore, ref.pfx+"B")
+	return fmt.Sprintf("(OpMove %d %d %s)", src.IID, dst.IID, itemsOf(e, newRows(ref, dst.IID)))
+}
+
+func modelExpunge(e *emitter, ref *refRun) string {
+	mb := mbByName(ref.snapBefore, ref.pfx+"A")
+	var ids []string
+	for _, r := range rowsOf(ref.snapBefore, mb.IID) {
+		if !hasRow(ref.snapAfter, mb.IID, r.Msg) {
+			ids = append(ids, fmt.Sprint(e.mid(r.Msg)))
+		}
+	}
+	return fmt.Sprintf("(OpExpunge %d %s)", mb.IID, jl(ids))
+}
+
+func modelStore(e *emitter, ref *refRun) string {
+	mb := mbByName(ref.snapBefore, ref.pfx+"A")
+	var items []string
+	for _, r := range rowsOf(ref.snapBefore, mb.IID) {
+		var fb, fa []string
+		for _, m := range ref.snapBefore.Ms {
+			if m.IID == r.Msg {
+				fb = m.Flags
+			}
+		}
+		for _, m := range ref.snapAfter.Ms {
+			if m.IID == r.Msg {
+				fa = m.Flags
+			}
+		}
+		if e.flagTok(fb) != e.flagTok(fa) {
+			items = append(items, fmt.Sprintf("(%d, %d)", e.mid(r.Msg), e.flagTok(fa)))
+		}
+	}
+	return fmt.Sprintf("(OpStore %s)", jl(items))
+}
+
+func newMailboxes(e *emitter, ref *refRun) []string {
+	var out []string
+	for _, mb := range ref.snapAfter.Mb {
+		known := false
+		for _, b := range ref.snapBefore.Mb {
+			if b.IID == mb.IID {
+				known = true
+			}
+		}
+		if !known {
+			out = append(out, fmt.Sprintf("(%d, %d)", mb.IID, e.metaTok(mb)))
+		}
+	}
+	return out
+}
+
+func modelCreate(e *emitter, ref *refRun) string {
+	return fmt.Sprintf("(OpCreate %s)", jl(newMailboxes(e, ref)))
+}
+
+func modelDelete(e *emitter, ref *refRun) string {
+	return fmt.Sprintf("(OpDelete %d)", mbByName(ref.snapBefore, ref.pfx+"A").IID)
+}
+
+func modelRename(e *emitter, ref *refRun) string {
+	var ren []string
+	for _, b := range ref.snapBefore.Mb {
+		for _, a := range ref.snapAfter.Mb {
+			if a.IID == b.IID && a.Name != b.Name {
+				ren = append(ren, fmt.Sprintf("(%d, %d)", a.IID, e.metaTok(a)))
+			}
+		}
+	}
+	return fmt.Sprintf("(OpRename %s %s)", jl(newMailboxes(e, ref)), jl(ren))
+}
+
+func modelConnCreate(e *emitter, ref *refRun) string {
+	var msgs, rows []string
+	var created []snapMsg
+	for _, m := range ref.snapAfter.Ms {
+		found := false
+		for _, b := range ref.snapBefore.Ms {
+			if b.IID == m.IID {
+				found = true
+			}
+		}
+		if !found {
+			created = append(created, m)
+		}
+	}
+	// creation order = order of the items in the update = order of the store writes in the trace
+	order := map[string]int{}
+	for _, x := range ref.events {
+		if x.K == "set" {
+			order[x.Args[0]] = len(order)
+		}
+	}
+	sort.Slice(created, func(i, j int) bool { return order[created[i].IID] < order[created[j].IID] })
+	for _, m := range created {
+		msgs = append(msgs, fmt.Sprintf("(%d, [0])", e.mid(m.IID)))
+	}
+	for _, mb := range ref.snapAfter.Mb {
+		for _, r := range newRows(ref, mb.IID) {
+			rows = append(rows, fmt.Sprintf("(%d, %d, %d)", r.Mb, r.UID, e.mid(r.Msg)))
+		}
+	}
+	// mailboxes in the order the implementation handled them (a Go map: any order)
+	mbOrder := map[uint64]int{}
+	for _, x := range ref.events {
+		if x.K == "stmt" && x.N == "AddMessagesToMailbox" && len(x.Args) > 0 {
+			v, _ := strconv.ParseUint(x.Args[0], 10, 64)
+			if _, ok := mbOrder[v]; !ok {
+				mbOrder[v] = len(mbOrder)
+			}
+		}
+	}
+	sort.SliceStable(rows, func(i, j int) bool {
+		var a, b uint64
+		fmt.Sscanf(rows[i], "(%d,", &a)
+		fmt.Sscanf(rows[j], "(%d,", &b)
+		return mbOrder[a] < mbOrder[b]
+	})
+	return fmt.Sprintf("(OpConnCreate %s %s)", jl(msgs), jl(rows))
+}
+
+func modelConnUpdate(e *emitter, ref *refRun) string {
+	old := msByRID(ref.snapBefore, ref.pfx+"r1")
+	nw := msByRID(ref.snapAfter, ref.pfx+"r1")
+	if old == nil || nw == nil {
+		return ""
+	}
+	var oldrows, newrows []string
+	for _, mb := range ref.snapBefore.Mb {
+		if hasRow(ref.snapBefore, mb.IID, old.IID) {
+			oldrows = append(oldrows, fmt.Sprint(mb.IID))
+		}
+	}
+	for _, mb := range ref.snapAfter.Mb {
+		for _, r := range rowsOf(ref.snapAfter, mb.IID) {
+			if r.Msg == nw.IID {
+				newrows = append(newrows, fmt.Sprintf("(%d, %d)", mb.IID, r.UID))
+			}
+		}
+	}
+	return fmt.Sprintf("(OpConnUpdate %d %d [0] %s %s)", e.mid(old.IID), e.mid(nw.IID), jl(oldrows), jl(newrows))
+}
+
+func modelConnDelete(e *emitter, ref *refRun) string {
+	m := msByRID(ref.snapBefore, ref.pfx+"r1")
+	if m == nil {
+		return ""
+	}
+	var mbs []string
+	for _, mb := range ref.snapBefore.Mb {
+		if hasRow(ref.snapBefore, mb.IID, m.IID) {
+			mbs = append(mbs, fmt.Sprint(mb.IID))
+		}
+	}
+	return fmt.Sprintf("(OpConnDelete %d %s)", e.mid(m.IID), jl(mbs))
+}
+
+func modelSessionEnd(e *emitter, ref *refRun) string {
+	var ids []string
+	for _, x := range ref.events {
+		if x.K == "stmt" && x.N == "DeleteMessages" {
+			for _, a := range x.Args {
+				ids = append(ids, fmt.Sprint(e.mid(a)))
+			}
+		}
+	}
+	return fmt.Sprintf("(OpSessionEnd %s)", jl(ids))
+}
